@@ -1,12 +1,415 @@
-/-! Model for property C15 (core-only: no Mathlib import, so the driver links). -/
+import OnetVerif.Model.Util
+import OnetVerif.Generated
+/-! Model for property C15: streams deliver everything in order and end cleanly whoever leaves
+first.  Channel-level transition system of one streaming websocket connection (anchors are to
+/repo at the time of writing):
+
+* the client and the two directions of the websocket (`c2s`, `s2c`);
+* the reader goroutine `R` (websocket.go:324-346): reads a client message, forwards it into
+  `clientInputs`, on a read error closes `closing`; it closes `clientInputs` when it ends and
+  stops forwarding once `leaving` is closed;
+* the write loop `W` (websocket.go:348-383): forwards `outChan` to the client, a closed `outChan`
+  ends the stream with a normal close, `closing` / a write error with an error close; closes
+  `leaving` on its way out; the deferred `ws.Close()` makes `R`'s read fail;
+* the service adapter `A` (`ProcessClientStreamRequest`, processor.go:456-623): for every client
+  message decode, call the streaming handler, start a forwarder `F` for the channel it returned
+  and a stopper; `endStream` after a bad message; `stopAll` when `clientInputs` is closed;
+* forwarders `F` (processor.go:572-617): service channel → `outChan`; the last one that ends
+  closes `outChan`; stoppers (processor.go:543-557): after `stopAll` close the service's stop channel;
+* the service: hands values to the forwarder of a channel (`emit`), closes a channel (`svcClose`).
+
+`Variant` selects, per repair, the code as it is now (`true`) or as it was (`false`), so that the
+behaviour of the old code can be stated and refuted.  Sending on / closing a closed channel is the
+outcome `panic` (the process dies: no further step).  Capacities of `clientInputs` and `outChan`
+are parameters (`Caps`); the driver uses `Generated.wsClientInputsCap` / `wsOutChanCap`.  Core-only. -/
 namespace C15
 
+/-- which repairs are in place -/
+structure Variant where
+  /-- `outChan` is closed by the last forwarder (counter under `outLock`), a bad message ends the
+  stream through `endStream`, the adapter keeps draining, forwarders give up on `stopAll`;
+  `false`: first forwarder's `closeOutOnce`, unguarded `close(outChan); return` in the adapter -/
+  guardedOut : Bool
+  /-- the reader closes `clientInputs` itself and selects on `leaving`;
+  `false`: the write loop closes `clientInputs`, the reader sends unconditionally -/
+  readerCloses : Bool
+  /-- a channel the handler returns a second time is not given a second forwarder -/
+  dedupe : Bool
+  deriving DecidableEq, Repr
+
+/-- the code as it is -/
+def Variant.fixed : Variant := ⟨true, true, true⟩
+/-- the code before the three repairs -/
+def Variant.old : Variant := ⟨false, false, false⟩
+
+structure Caps where
+  inCap : Nat    -- `make(chan []byte, 10)`  (websocket.go:313)
+  outCap : Nat   -- `make(chan []byte, 100)` (processor.go:459)
+  deriving Repr
+
+def Caps.generated : Caps := ⟨Generated.wsClientInputsCap, Generated.wsOutChanCap⟩
+
+/-- a message of the client on the stream -/
+inductive CMsg where
+  | fresh             -- valid request, the handler returns a new channel
+  | reuse (j : Nat)   -- valid request, the handler returns the channel of stream `j` again
+  | garbage           -- does not decode
+  | failing           -- decodes, the handler returns an error (or panics: same path)
+  deriving DecidableEq, Repr
+
+/-- what the write loop puts on the wire -/
+inductive Frame where
+  | data (k v : Nat)   -- value `v` of service channel `k`
+  | closeNormal        -- 1000 "service finished streaming"
+  | closeError         -- 1002 "unexpected error: …"
+  deriving DecidableEq, Repr
+
+inductive RPc where
+  | read | hold (m : CMsg) | done
+  deriving DecidableEq, Repr
+
+inductive FPc where
+  | recv | hold (v : Nat) | done
+  deriving DecidableEq, Repr
+
+inductive Panic where
+  | sendOnClosedInputs | sendOnClosedOut | closeOfClosedOut
+  deriving DecidableEq, Repr
+
+/-- one channel handed out by the streaming handler, with its forwarder(s) and its stop channel -/
+structure Stream where
+  chanClosed : Bool := false    -- the service closed the channel
+  stopClosed : Bool := false    -- `stopServiceChan` closed: the service is told to stop
+  refused : Bool := false       -- the request came when `outChan` was already closed: stopped at once
+  fwd : FPc := .recv            -- the forwarder of the channel
+  extra : List FPc := []        -- more forwarders on the same channel (only without `dedupe`)
+  emitted : List Nat := []      -- ghost: the values handed to forwarders, in order
+  deriving DecidableEq, Repr
+
+structure St where
+  c2s : List CMsg := []         -- client messages on their way to the reader
+  cGone : Bool := false         -- the client closed or dropped the connection
+  s2c : List Frame := []        -- frames written by the server, in order
+  wsClosed : Bool := false      -- the deferred `ws.Close()` of `ServeHTTP` has run
+  rpc : RPc := .read
+  closing : Bool := false       -- `close(closing)`
+  leaving : Bool := false       -- `close(leaving)`
+  inq : List CMsg := []         -- `clientInputs`
+  inClosed : Bool := false
+  adone : Bool := false         -- the adapter goroutine has ended
+  ended : Bool := false         -- its `ended` flag
+  stopAll : Bool := false       -- `close(stopAll)`
+  fcount : Nat := 0             -- `forwarders`
+  outClosed : Bool := false     -- `outChan` closed
+  onceDone : Bool := false      -- `closeOutOnce` used (old code)
+  outq : List (Nat × Nat) := [] -- `outChan`: (channel, value)
+  streams : List Stream := []
+  wdone : Bool := false         -- the write loop has been left
+  calls : Nat := 0              -- handler invocations
+  panic : Option Panic := none
+  deriving DecidableEq, Repr
+
+/-- `ServeHTTP` has read the first message `m`, put it into `clientInputs`, started the adapter and
+the reader (websocket.go:313-346) -/
+def init (m : CMsg) : St := { inq := [m] }
+
+inductive Act where
+  | cSend (m : CMsg)       -- the client sends a further message
+  | cLeave                 -- the client closes or drops the connection
+  | rStep                  -- reader: read a message / forward it / notice the closed socket
+  | rLeave                 -- reader: the `<-leaving` case of its select
+  | aStep                  -- adapter: one iteration of `for buf := range clientInputs`
+  | emit (k f v : Nat)     -- the service hands `v` to forwarder `f` of channel `k`
+  | svcClose (k : Nat)     -- the service closes channel `k`
+  | fStep (k f : Nat)      -- forwarder: put the held value into `outChan` / end on a closed channel
+  | fDrop (k f : Nat)      -- forwarder: the `<-stopAll` case of its select
+  | stop (k : Nat)         -- stopper of channel `k`
+  | wOut                   -- write loop: the `outChan` case
+  | wClosing               -- write loop: the `closing` case
+  | wOutFail               -- write loop: `WriteMessage` fails (the client is gone)
+  deriving DecidableEq, Repr
+
+/-- unguarded `close(outChan)` -/
+def closeOut (s : St) : St :=
+  if s.outClosed then { s with panic := some .closeOfClosedOut } else { s with outClosed := true }
+
+/-- the deferred function of a forwarder (processor.go:577-586 / `closeOutOnce` before) -/
+def fwdExit (v : Variant) (s : St) : St :=
+  if v.guardedOut then
+    { s with fcount := s.fcount - 1, outClosed := s.outClosed || (s.fcount - 1 == 0) }
+  else if s.onceDone then s else closeOut { s with onceDone := true }
+
+/-- the adapter meets a message that does not decode or whose handler fails (processor.go:507-527) -/
+def adapterFail (v : Variant) (s : St) : St :=
+  if v.guardedOut then
+    -- `ended = true; endStream()`
+    { s with ended := true, stopAll := true, outClosed := s.outClosed || (s.fcount == 0) }
+  else
+    -- `close(outChan); return` — `stopAll` is never closed
+    { closeOut s with adone := true }
+
+/-- the handler returned a new channel (processor.go:529-617) -/
+def newStream (v : Variant) (s : St) : St :=
+  if v.guardedOut then
+    if s.outClosed then { s with streams := s.streams ++ [{ refused := true, fwd := .done }] }
+    else { s with fcount := s.fcount + 1, streams := s.streams ++ [{}] }
+  else { s with streams := s.streams ++ [{}] }
+
+/-- the handler returned channel `j` again and there is no `dedupe`: one more forwarder on it -/
+def extraFwd (v : Variant) (s : St) (j : Nat) (st : Stream) : St :=
+  if v.guardedOut && s.outClosed then s
+  else { s with fcount := (if v.guardedOut then s.fcount + 1 else s.fcount),
+                streams := s.streams.set j { st with extra := st.extra ++ [.recv] } }
+
+def getFwd (st : Stream) (f : Nat) : Option FPc := if f = 0 then some st.fwd else st.extra[f - 1]?
+
+def setFwd (st : Stream) (f : Nat) (pc : FPc) : Stream :=
+  if f = 0 then { st with fwd := pc } else { st with extra := st.extra.set (f - 1) pc }
+
+/-- the reader goroutine ends -/
+def readerExit (v : Variant) (s : St) : St :=
+  if v.readerCloses then { s with rpc := .done, inClosed := true } else { s with rpc := .done }
+
+/-- the write loop is left after writing frame `f`; `ServeHTTP` returns and the socket is closed -/
+def writerLeave (v : Variant) (viaClosing : Bool) (f : Frame) (s : St) : St :=
+  let s := { s with s2c := s.s2c ++ [f], wsClosed := true, wdone := true }
+  if v.readerCloses then (if viaClosing then s else { s with leaving := true })
+  else { s with inClosed := true }      -- `close(clientInputs)` by the write loop
+
+def step (v : Variant) (caps : Caps) (s : St) : Act → Option St := fun a =>
+  if s.panic.isSome then none else
+  match a with
+  | .cSend m => if s.cGone then none else some { s with c2s := s.c2s ++ [m] }
+  | .cLeave => if s.cGone then none else some { s with cGone := true }
+  | .rStep =>
+    match s.rpc with
+    | .read =>
+      if s.wsClosed then some (readerExit v { s with closing := true })
+      else match s.c2s with
+        | m :: rest => some { s with c2s := rest, rpc := .hold m }
+        | [] => if s.cGone then some (readerExit v { s with closing := true }) else none
+    | .hold m =>
+      if s.inClosed then some { s with panic := some .sendOnClosedInputs }
+      else if s.inq.length < caps.inCap then some { s with inq := s.inq ++ [m], rpc := .read }
+      else none
+    | .done => none
+  | .rLeave =>
+    match s.rpc with
+    | .hold _ => if v.readerCloses && s.leaving then some (readerExit v s) else none
+    | _ => none
+  | .aStep =>
+    if s.adone then none else
+    match s.inq with
+    | [] => if s.inClosed then some { s with adone := true, stopAll := true } else none
+    | m :: rest =>
+      let s := { s with inq := rest }
+      if s.ended then some s else
+      match m with
+      | .garbage => some (adapterFail v s)
+      | .failing => some (adapterFail v { s with calls := s.calls + 1 })
+      | .fresh => some (newStream v { s with calls := s.calls + 1 })
+      | .reuse j =>
+        let s := { s with calls := s.calls + 1 }
+        match s.streams[j]? with
+        | none => some (newStream v s)
+        | some st => if v.dedupe then some s else some (extraFwd v s j st)
+  | .emit k f x =>
+    match s.streams[k]? with
+    | none => none
+    | some st =>
+      if st.chanClosed then none else
+      match getFwd st f with
+      | some .recv =>
+        some { s with streams := s.streams.set k (setFwd { st with emitted := st.emitted ++ [x] } f (.hold x)) }
+      | _ => none
+  | .svcClose k =>
+    match s.streams[k]? with
+    | none => none
+    | some st => if st.chanClosed then none else some { s with streams := s.streams.set k { st with chanClosed := true } }
+  | .fStep k f =>
+    match s.streams[k]? with
+    | none => none
+    | some st =>
+      match getFwd st f with
+      | some .recv =>
+        if st.chanClosed then some (fwdExit v { s with streams := s.streams.set k (setFwd st f .done) }) else none
+      | some (.hold x) =>
+        if s.outClosed then some { s with panic := some .sendOnClosedOut }
+        else if s.outq.length < caps.outCap then
+          some { s with outq := s.outq ++ [(k, x)], streams := s.streams.set k (setFwd st f .recv) }
+        else none
+      | _ => none
+  | .fDrop k f =>
+    match s.streams[k]? with
+    | none => none
+    | some st =>
+      match getFwd st f with
+      | some (.hold _) =>
+        if v.guardedOut && s.stopAll then some (fwdExit v { s with streams := s.streams.set k (setFwd st f .done) })
+        else none
+      | _ => none
+  | .stop k =>
+    match s.streams[k]? with
+    | none => none
+    | some st =>
+      if (s.stopAll || st.refused) && !st.stopClosed then
+        some { s with streams := s.streams.set k { st with stopClosed := true } }
+      else none
+  | .wOut =>
+    if s.wdone then none else
+    match s.outq with
+    | (k, x) :: rest => some { s with outq := rest, s2c := s.s2c ++ [.data k x] }
+    | [] => if s.outClosed then some (writerLeave v false .closeNormal s) else none
+  | .wClosing =>
+    if s.wdone then none
+    else if s.closing then some (writerLeave v true .closeError s) else none
+  | .wOutFail =>
+    if s.wdone then none else
+    match s.outq with
+    | _ :: rest => if s.cGone then some (writerLeave v false .closeError { s with outq := rest }) else none
+    | [] => none
+
+/-- a schedule: an action that is not enabled (blocked party, dead process) is skipped -/
+def run (v : Variant) (caps : Caps) (s : St) : List Act → St
+  | [] => s
+  | a :: as =>
+    match step v caps s a with
+    | some s' => run v caps s' as
+    | none => run v caps s as
+
+/-! ## Line-protocol driver
+
+The harness drives the client and the service of one or more streaming connections step by step
+and waits for the observable effect of each step; the goroutines of onet run freely in between.
+The driver therefore runs the internal actions to quiescence after every external one (`settle`),
+trying them in a fixed order; a party the harness holds at a hook does not move. -/
 namespace Drv
-/-- line-protocol driver state for C15 -/
-abbrev State := Unit
-def init : State := ()
-/-- one line in (tokens after the property prefix), new state and one line out -/
-def step (s : State) (_toks : List String) : State × String := (s, "bad-op")
+
+structure Conn where
+  name : String
+  st : St
+  read : Nat := 0                 -- frames the client has consumed
+  holds : List String := []       -- hook points at which the harness holds this connection's goroutines
+
+structure State where
+  conns : List Conn := []
+
+def init : State := {}
+
+def held (c : Conn) (p : String) : Bool := c.holds.contains p
+
+/-- internal actions worth trying in state `s`, in a fixed order -/
+def candidates (c : Conn) : List Act :=
+  let s := c.st
+  let ks := List.range s.streams.length
+  (if held c "reader-forward" && (match s.rpc with | .hold _ => true | _ => false) then [] else [.rStep, .rLeave]) ++
+  (if held c "adapter-receive" && !s.inq.isEmpty then [] else [.aStep]) ++
+  ks.map .stop ++
+  (if held c "forwarder-send" then ks.map (fun k => .fStep k 0) |>.filter (fun a =>
+      match a with
+      | .fStep k _ => (match s.streams[k]? with | some st => st.fwd == .recv | none => false)
+      | _ => false)
+   else ks.map (fun k => .fStep k 0) ++ ks.map (fun k => .fDrop k 0)) ++
+  [.wOut, .wClosing, .wOutFail]
+
+def settleAux (v : Variant) : Nat → Conn → Conn
+  | 0, c => c
+  | fuel + 1, c =>
+    match (candidates c).findSome? (fun a => step v Caps.generated c.st a) with
+    | some s' => settleAux v fuel { c with st := s' }
+    | none => c
+
+def settle (c : Conn) : Conn := settleAux .fixed 10000 c
+
+def parseMsg (s : String) : Option CMsg :=
+  if s = "fresh" then some .fresh else if s = "garbage" then some .garbage
+  else if s = "failing" then some .failing
+  else if s.startsWith "reuse" then (s.drop 5).toString.toNat?.map .reuse else none
+
+def showFrame : Frame → String
+  | .data k v => s!"data {k} {v}"
+  | .closeNormal => "close 1000"
+  | .closeError => "close 1002"
+
+def find (s : State) (n : String) : Option Conn := s.conns.find? (·.name = n)
+
+def put (s : State) (c : Conn) : State :=
+  if s.conns.any (·.name = c.name) then { conns := s.conns.map fun d => if d.name = c.name then c else d }
+  else { conns := s.conns ++ [c] }
+
+/-- apply external action `a` to connection `c` (if enabled), then settle -/
+def ext (c : Conn) (a : Act) : Option Conn :=
+  (step .fixed Caps.generated c.st a).map fun s' => settle { c with st := s' }
+
+def ok (s : State) (c : Option Conn) : State × String :=
+  match c with
+  | some c => (put s c, "ok")
+  | none => (s, "timeout")
+
+/-- operations (see harness/cmd/onetharness/c15.go):
+`open c m`, `csend c m`, `wstart c n`, `emit c k v`, `svcclose c k`, `cread c`, `cleave c close|drop`,
+`wstop c k`, `hold c p`, `release c p`, `wheld c p`, `alive` -/
+def step (s : State) (toks : List String) : State × String :=
+  match toks with
+  | ["open", n, m] =>
+    match parseMsg m, find s n with
+    | some m, none => (put s (settle { name := n, st := C15.init m }), "ok")
+    | _, _ => (s, "bad-op")
+  | ["csend", n, m] =>
+    match parseMsg m, find s n with
+    | some m, some c => ok s (ext c (.cSend m))
+    | _, _ => (s, "bad-op")
+  | ["wstart", n, k] =>
+    match k.toNat?, find s n with
+    | some k, some c => (s, if k < c.st.calls then "ok" else "timeout")
+    | _, _ => (s, "bad-op")
+  | ["emit", n, k, x] =>
+    match k.toNat?, x.toNat?, find s n with
+    | some k, some x, some c => ok s (ext c (.emit k 0 x))
+    | _, _, _ => (s, "bad-op")
+  | ["svcclose", n, k] =>
+    match k.toNat?, find s n with
+    | some k, some c => ok s (ext c (.svcClose k))
+    | _, _ => (s, "bad-op")
+  | ["cread", n] =>
+    match find s n with
+    | some c =>
+      match c.st.s2c[c.read]? with
+      | some f => (put s { c with read := c.read + 1 }, showFrame f)
+      | none => (s, "timeout")
+    | none => (s, "bad-op")
+  | ["cleave", n, _how] =>
+    match find s n with
+    | some c => ok s (ext c .cLeave)
+    | none => (s, "bad-op")
+  | ["wstop", n, k] =>
+    match k.toNat?, find s n with
+    | some k, some c =>
+      (s, match c.st.streams[k]? with
+          | some st => if st.stopClosed then "ok" else "timeout"
+          | none => "timeout")
+    | _, _ => (s, "bad-op")
+  | ["hold", n, p] =>
+    match find s n with
+    | some c => (put s { c with holds := p :: c.holds }, "ok")
+    | none => (s, "bad-op")
+  | ["release", n, p] =>
+    match find s n with
+    | some c => (put s (settle { c with holds := c.holds.filter (· ≠ p) }), "ok")
+    | none => (s, "bad-op")
+  | ["wheld", n, p] =>
+    match find s n with
+    | some c =>
+      let at_ :=
+        if p = "reader-forward" then (match c.st.rpc with | .hold _ => true | _ => false)
+        else if p = "adapter-receive" then !c.st.inq.isEmpty && !c.st.adone
+        else if p = "forwarder-send" then c.st.streams.any (fun st => match st.fwd with | .hold _ => true | _ => false)
+        else false
+      (s, if held c p && at_ then "ok" else "timeout")
+    | none => (s, "bad-op")
+  | ["alive"] => (s, "ok")
+  | _ => (s, "bad-op")
+
 end Drv
 
 end C15
